@@ -24,7 +24,11 @@
 
 package transitioner
 
-import "github.com/AliceO2Group/Control/executor/executorcmd/transitioner/fairmq"
+import (
+	"errors"
+
+	"github.com/AliceO2Group/Control/executor/executorcmd/transitioner/fairmq"
+)
 
 type FairMQ struct {
 	DoTransition DoTransitionFunc
@@ -68,6 +72,7 @@ func (cm *FairMQ) Commit(evt string, src string, dst string, args map[string]str
 	case "GO_ERROR":
 		log.WithField("event", evt).Error("transition not implemented yet")
 		finalState = src
+		err = errors.New("transition not implemented")
 	case "CONFIGURE":
 		finalState, err = cm.doConfigure(evt, src, dst, args)
 	case "RESET":
